@@ -50,9 +50,10 @@ Lemma d8_nested_cdata_not_well_formed :
   exists out, enc_xml syncml11 Compact 0 false [d8_tree] = XOk out /\ read_xml_auto out = RErr.
 Proof. eexists. split; [vm_compute; reflexivity|]. vm_compute. reflexivity. Qed.
 
-Lemma d9_cdata_end_in_text_not_well_formed :
-  exists out, enc_xml syncml11 Canonical 0 true [d9_tree] = XOk out /\ read_xml_auto out = RErr.
-Proof. eexists. split; [vm_compute; reflexivity|]. vm_compute. reflexivity. Qed.
+(* D9 repaired: the section is split at the three bytes, the document is read back (payload text "x]]>y") *)
+Lemma d9_cdata_end_in_text_split :
+  exists out d, enc_xml syncml11 Canonical 0 true [d9_tree] = XOk out /\ read_xml_auto out = ROk d.
+Proof. eexists. eexists. split; [vm_compute; reflexivity|]. vm_compute. reflexivity. Qed.
 
 (* the same payloads as plain text of an ordinary element are read back exactly: a satisfiable instance of the
    hypotheses of read_enc_compact_canonical, with awkward characters *)
@@ -61,8 +62,8 @@ Definition ok_tree : node :=
   Elt (row 40) [] [Elt (row 38) [] [Elt (row 21) [] [Elt (row 63) [] [txt awkward]]; Elt (row 12) [] []]].
 
 Example ok_tree_hypotheses :
-  node_ok syncml11 (opts_of_params Compact 0 true) PRoot None ok_tree = true /\
-  node_ok syncml11 (opts_of_params Canonical 0 true) PRoot None ok_tree = true /\
+  node_ok syncml11 (opts_of_params Compact 0 true) None None ok_tree = true /\
+  node_ok syncml11 (opts_of_params Canonical 0 true) None None ok_tree = true /\
   plain_attrs ok_tree = true.
 Proof. vm_compute. auto. Qed.
 
